@@ -168,8 +168,8 @@ def X3(ctx):
     dom = body.dominators()
     trunc = [b for (b, t, c) in prog.sites(inst) if prog.callee_key(c) == "rt::object::Store::<T>::truncate"]
     ctx.touch(fk, len(trues) + len(falses))
-    if len(trues) != 3 or len(falses) != 1 or len(trunc) != 1:
-        ctx.bad("X3", fk, "step() shape changed: %d `return true`, %d `return false`, %d truncate (expected 3/1/1)" %
+    if not trues or not falses or len(trunc) != 1:
+        ctx.bad("X3", fk, "step() shape changed: %d `return true`, %d `return false`, %d truncate (expected >=1 / >=1 / 1)" %
                 (len(trues), len(falses), len(trunc)), fn.loc(), detail="shape")
         return
     # truncate(last) with last = the loop index, dominating every success
@@ -180,52 +180,265 @@ def X3(ctx):
         ctx.ok("X3", "step:truncate", "branches.truncate(last) dominates every success; indices visited in reverse", [site_str(prog, fk, tb)])
     else:
         ctx.bad("X3", fk, "deeper branches are not discarded before a successful step, or the loop no longer runs from the deepest branch", site_str(prog, fk, tb), detail="truncate")
-    kinds = {}
-    for b in trues:
-        atoms = guard_atoms(body, b)
-        txts = [(canon(e), pol) for (e, pol, v, sb) in atoms]
-        kind = None
-        if any(mentions_field(e, LOAD, "pos") and e[0] == "binop" for (e, pol, v, sb) in atoms):
-            kind = "Load"
-            lt = [(e, pol) for (e, pol, v, sb) in atoms if e[0] == "binop" and mentions_field(e[2], LOAD, "pos") and mentions_field(e[3], LOAD, "len")]
-            ok = any((e[1] == "Lt" and pol is True) or (e[1] == "Ge" and pol is False) for (e, pol) in lt)
-            # pos += 1 happens before the comparison
-            incs = [w["bb"] for w in field_writes(prog, fk, LOAD, "pos")]
-            ok = ok and any(i in dom[b] for i in incs)
-            expl = any(is_field(e, LOAD, "exploring") and pol is True for (e, pol, v, sb) in atoms)
-        elif any(is_field(e, SPUR, "spur") for (e, pol, v, sb) in atoms):
-            kind = "Spurious"
-            ok = any(is_field(e, SPUR, "spur") and pol is False for (e, pol, v, sb) in atoms)
-            sets = [w["bb"] for w in field_writes(prog, fk, SPUR, "spur")]
-            ok = ok and any(s in dom[b] or s == b for s in sets)
-            expl = any(is_field(e, SPUR, "exploring") and pol is True for (e, pol, v, sb) in atoms)
-        elif any(is_field(e, SCH, "exploring") for (e, pol, v, sb) in atoms):
-            kind = "Schedule"
-            ok = any(e[0] == "call" and pol is True and
-                     ((e[1].endswith("Option::<T>::is_some") and "find(" in canon(e)) or (e[1].startswith("rt::path::") and e[1] in prog.fns))
-                     for (e, pol, v, sb) in atoms) or \
-                any(e[0] == "discr" and "Iterator::find(" in canon(e) and not isinstance(v, tuple) and
-                    dict((x, y) for (x, y) in (e[3] or [])).get(v) == "Some" for (e, pol, v, sb) in atoms)
-            expl = any(is_field(e, SCH, "exploring") and pol is True for (e, pol, v, sb) in atoms)
-        if kind is None:
-            ctx.bad("X3", fk, "a `return true` of step() is not tied to a branch kind", site_str(prog, fk, b), detail="unknown-arm")
+    # per branch kind, by scenario (so it does not matter whether the three arms are written in step(), in helpers, or return a
+    # flag that step() tests): with the examined branch of kind K,
+    #   (a) not exploring            -> no success before the next branch is examined
+    #   (b) exploring, no alternative left -> no success
+    #   (c) exploring, alternative left    -> success is reachable
+    nexts = [b for (b, t, c) in prog.sites(inst) if callee_path(t) == "std::iter::Iterator::next"]
+    loop_heads = set(n_ for n_ in nexts if n_ in dom[tb])
+    KINDS = {"Schedule": SCH, "Load": LOAD, "Spurious": SPUR}
+
+    def kind_of_downcast(e):
+        """which branch type a `last.downcast::<K>()` call asks for (from the resolved instance)"""
+        c = strip(e)
+        if c[0] != "call" or not c[1].endswith("Ref::downcast") or len(c) < 4:
+            return None
+        rec = prog.insts[inst].calls.get(c[3], {})
+        if rec.get("k") != "inst":
+            return None
+        args = prog.insts[rec["id"]].args
+        for nm, adt in KINDS.items():
+            if adt in str(args):
+                return nm
+        return None
+
+    def scenario(kind, exploring, can_advance):
+        adt = KINDS[kind]
+
+        def truth_of(e):
+            """value of a boolean test under the scenario, or None"""
+            if is_field(e, adt, "exploring"):
+                return exploring
+            if kind == "Load" and e[0] == "binop" and e[1] in ("Lt", "Ge") and mentions_field(e[2], LOAD, "pos") and mentions_field(e[3], LOAD, "len"):
+                return can_advance if e[1] == "Lt" else (not can_advance)
+            if kind == "Spurious" and is_field(e, SPUR, "spur"):
+                return not can_advance
+            return None
+
+        def a(body_, b_, t_, e):
+            pol = True
+            while e[0] == "unop" and e[1] == "Not":
+                e = e[2]
+                pol = not pol
+            if e[0] == "discr":
+                k2 = kind_of_downcast(e[1])
+                if k2 is not None:
+                    names = dict((n_, v_) for (v_, n_) in (e[3] or []))
+                    want = names.get("Some" if k2 == kind else "None")
+                    hit = [tb_ for (v_, tb_) in t_["targets"] if v_ == want]
+                    return set(hit) if hit else {t_["otherwise"]}
+                c = strip(e[1])
+                if kind == "Schedule" and c[0] == "call" and c[1] == "std::iter::Iterator::find":
+                    sel = _selected_states(prog, _closure_arg(c))
+                    if sel == {"Pending"}:
+                        names = dict((n_, v_) for (v_, n_) in (e[3] or []))
+                        want = names.get("Some" if can_advance else "None")
+                        hit = [tb_ for (v_, tb_) in t_["targets"] if v_ == want]
+                        return set(hit) if hit else {t_["otherwise"]}
+                return None
+            r = truth_of(e)
+            if r is not None:
+                return switch_targets_for(t_, r == pol)
+            return None
+
+        def value_of(body_, b_, e):
+            pol = True
+            while e[0] == "unop" and e[1] == "Not":
+                e = e[2]
+                pol = not pol
+            r = truth_of(e)
+            return None if r is None else (r == pol)
+        a.value_of = value_of
+        return a
+    handled = set()
+    for kind in KINDS:
+        res = {}
+        for (nm, expl, adv) in (("not-exploring", False, True), ("exhausted", True, False), ("advance", True, True)):
+            r_, _ = PEval(body, scenario(kind, expl, adv)).run(start=list(body.succs(tb))[0], stop_blocks=loop_heads)
+            res[nm] = any(b in r_ for b in trues)
+        # the arm exists at all: some downcast for this kind is tested
+        exists = any(body.term(b)["k"] == "switch" and body.expr_of_operand(body.term(b)["op"])[0] == "discr" and
+                     kind_of_downcast(body.expr_of_operand(body.term(b)["op"])[1]) == kind for b in range(body.n))
+        if not exists:
             continue
-        kinds[kind] = b
-        if ok and expl:
+        handled.add(kind)
+        if not res["not-exploring"] and not res["exhausted"] and res["advance"]:
             ctx.ok("X3", "step:" + kind, {"Load": "pos += 1; pos < len", "Spurious": "!spur; spur = true",
-                                          "Schedule": "a Pending alternative was activated"}[kind] + " (and branch.exploring)", [site_str(prog, fk, b)])
+                                          "Schedule": "a Pending alternative was activated"}[kind] + " (and branch.exploring)", [site_str(prog, fk, tb)])
         else:
-            ctx.bad("X3", fk, "%s arm of step() reports progress without a strict advance of the branch (advance=%s, exploring-guard=%s): "
-                    "an execution would be repeated or exploration would not terminate" % (kind, ok, expl), site_str(prog, fk, b), detail=kind)
-    if set(kinds) != {"Load", "Spurious", "Schedule"}:
-        ctx.bad("X3", fk, "step() does not handle all three branch kinds (%s)" % sorted(kinds), fn.loc(), detail="kinds")
+            ctx.bad("X3", fk, "%s arm of step() reports progress without a strict advance of the branch (success when not exploring=%s, "
+                    "when exhausted=%s, when an alternative is left=%s): an execution would be repeated or exploration would not terminate" %
+                    (kind, res["not-exploring"], res["exhausted"], res["advance"]), site_str(prog, fk, tb), detail=kind)
+    if handled != set(KINDS):
+        ctx.bad("X3", fk, "step() does not handle all three branch kinds (%s)" % sorted(handled), fn.loc(), detail="kinds")
     # false only after the loop: the false block is reached through the iterator's None edge
-    fb = falses[0]
-    atoms = guard_atoms(body, fb)
-    if any(e[0] == "discr" and "Iterator::next" in canon(e) and v == 0 for (e, pol, v, sb) in atoms):
-        ctx.ok("X3", "step:false", "`false` only when every branch has been popped", [site_str(prog, fk, fb)])
+    okf = True
+    for fb in falses:
+        atoms = guard_atoms(body, fb)
+        if not any(e[0] == "discr" and "Iterator::next" in canon(e) and v == 0 for (e, pol, v, sb) in atoms):
+            okf = False
+    # (a `false` assigned to an intermediate flag inside the loop is not a return)
+    real_false = [fb for fb in falses]
+    if okf:
+        ctx.ok("X3", "step:false", "`false` only when every branch has been popped", [site_str(prog, fk, falses[0])])
     else:
-        ctx.bad("X3", fk, "step() can report exhaustion before all branches were examined", site_str(prog, fk, fb), detail="false")
+        ctx.bad("X3", fk, "step() can report exhaustion before all branches were examined", site_str(prog, fk, falses[0]), detail="false")
+
+
+def _selected_states(prog, ck):
+    """Which `Thread` states a search closure (`|th| th.is_pending()`, `|th| *th == Thread::Active`, ...) selects."""
+    sel = set()
+    if ck and ck in prog.fns:
+        cb_ = prog.fns[ck].body
+        for x_ in deep_sources(cb_, cb_.expr_of_local(0)):
+            vt = variant_test(x_)
+            if vt and vt[2]:
+                sel.add(vt[1])
+            if x_[0] == "call" and x_[1] in (PT + "::is_pending", PT + "::is_active"):
+                sel.add(x_[1].split("::")[-1][3:].capitalize())
+    return sel
+
+
+SEARCHES = ("std::iter::Iterator::find", "std::iter::Iterator::position", "std::iter::Iterator::find_map", "std::iter::Iterator::any")
+
+
+def X6(ctx):
+    """In the Schedule arm of step() the explored alternative is retired (Active -> Visited) before the next one is promoted
+    (Pending -> Active): a search for "the Active entry" that runs after another entry was made Active is ambiguous and retires
+    the wrong one whenever the promoted thread has the smaller index."""
+    prog = ctx.prog
+    fk = _step_fn(prog)
+    fn = need_fn(ctx, "X6", fk)
+    if fn is None:
+        return
+    n = 0
+    bad = []
+    for k2 in [fk] + [k for k in prog.fns if enclosing_fn(k) == fk and k != fk]:
+        f2 = prog.fn(k2)
+        if f2 is None:
+            continue
+        body = f2.body
+        def _is_active_value(st):
+            if st["k"] == "setdiscr":
+                return st.get("variant") == "Active"
+            e = strip(body.expr_of_rvalue(st["rv"]))
+            return (e[0] == "agg" and e[1] == PT and e[2] == "Active") or \
+                   (e[0] == "const" and e[1].get("variant") == "Active" and PT in str(e[1].get("ty", PT)))
+        promotes = [b for b, blk in enumerate(body.blocks) if not blk["cleanup"] for st in blk["stmts"]
+                    if st["k"] in ("=", "setdiscr") and st["lhs"]["p"] and _is_active_value(st)]
+        # a promotion inside a closure handed to a call of the parent (map / for_each): the call site stands for it
+        if f2.kind == "Closure" and promotes:
+            pf = prog.fn(f2.j.get("parent_fn"))
+            if pf is not None:
+                pb = pf.body
+                for b in range(pb.n):
+                    t = pb.term(b)
+                    if t["k"] == "call" and any(strip(pb.expr_of_operand(a))[0] == "agg" and strip(pb.expr_of_operand(a))[1] == k2 for a in t["args"]):
+                        bad += _active_search_after(prog, pf, b)
+                        n += 1
+            continue
+        for b in promotes:
+            n += 1
+            bad += _active_search_after(prog, f2, b)
+    if n == 0:
+        ctx.missing("X6", fk, "no promotion of an alternative to Active found in step()")
+        return
+    ctx.touch(fk, n)
+    if bad:
+        ctx.bad("X6", fk, "step() looks for the Active entry of a schedule after it has promoted another entry to Active: the search "
+                "finds whichever of the two has the smaller index, so a pending alternative with a smaller index than the explored one is "
+                "marked Visited without ever being run (a backtrack point is lost)", bad[0], detail="retire-first")
+    else:
+        ctx.ok("X6", "step:retire-first", "the explored alternative is retired before the next one is promoted", [fn.loc()])
+
+
+def _active_search_after(prog, fn, start_b):
+    """sites of a search for the Active entry reachable from block start_b without leaving the loop iteration"""
+    body = fn.body
+    inst = prog.ident(fn.key)
+    heads = set(b for (b, t, c) in prog.sites(inst) if callee_path(t) == "std::iter::Iterator::next")
+    out = []
+    seen = set()
+    work = [x for x in body.succs(start_b)]
+    while work:
+        b = work.pop()
+        if b in seen or b in heads:
+            continue
+        seen.add(b)
+        t = body.term(b)
+        if t["k"] == "call" and callee_path(t) in SEARCHES:
+            e = ("call", callee_path(t), [body.expr_of_operand(a) for a in t["args"]], b)
+            if "Active" in _selected_states(prog, _closure_arg(e)):
+                out.append(site_str(prog, fn.key, b))
+        work += list(body.succs(b))
+    return out
+
+
+def stuck_cycles(body):
+    """Loops that can go round without changing anything: a cycle of blocks none of which writes memory, assigns a variable that
+    has several definitions, or hands out a mutable borrow to a call.  Returns one witness block per such cycle."""
+    defs = body.defs()
+
+    def progress(b):
+        blk = body.blocks[b]
+        for st in blk["stmts"]:
+            if st["k"] == "setdiscr":
+                return True
+            if st["k"] != "=":
+                continue
+            if st["lhs"]["p"]:
+                return True
+            if len(defs.get(st["lhs"]["l"], [])) > 1 and st["rv"]["k"] not in ("ref",) and \
+                    not (st["rv"]["k"] == "use" and st["rv"]["op"].get("k") == "const"):
+                return True
+            if st["rv"]["k"] in ("ref", "rawptr") and st["rv"].get("mut"):
+                return True
+        t = blk["term"]
+        if t["k"] in ("call", "tailcall") and callee_path(t).startswith("rt::") is False and "Iterator::next" in callee_path(t):
+            return True
+        return False
+    quiet = [b for b in range(body.n) if not body.blocks[b]["cleanup"] and not progress(b)]
+    qs = set(quiet)
+    succ = {b: [x for x in body.succs(b) if x in qs] for b in quiet}
+    # Tarjan-free: a quiet block that reaches itself through quiet blocks only
+    out = []
+    covered = set()
+    for b in quiet:
+        if b in covered:
+            continue
+        seen = set()
+        work = list(succ[b])
+        while work:
+            x = work.pop()
+            if x in seen:
+                continue
+            seen.add(x)
+            work += succ[x]
+        if b in seen:
+            out.append(b)
+            covered |= seen
+    return out
+
+
+def X5(ctx):
+    """The walks of Path::backtrack / Path::step over the branch stack make progress on every round: no loop in them can go
+    round without moving its cursor (or changing anything at all) - such a round would repeat forever."""
+    prog = ctx.prog
+    n = 0
+    for fk in (P + "::backtrack", _step_fn(prog), P + "::branch_thread", SCH + "::backtrack"):
+        fn = need_fn(ctx, "X5", fk)
+        if fn is None:
+            continue
+        n += 1
+        ctx.touch(fk, 1)
+        st = stuck_cycles(fn.body)
+        if st:
+            ctx.bad("X5", fk, "a loop of %s can go round without moving its cursor or changing any state: once entered with that "
+                    "condition it never ends (the exploration hangs)" % fk.split("::")[-1], site_str(prog, fk, st[0]), detail="progress")
+        else:
+            ctx.ok("X5", fk + ":progress", "every round of every loop moves a cursor or changes state", [fn.loc()])
+    ctx.floor("X5", n, 4, "Path::backtrack, Path::step, Path::branch_thread, Schedule::backtrack")
 
 
 def X4(ctx):
@@ -393,13 +606,31 @@ def E1(ctx):
         ctx.bad("E1", fk, "Schedule::backtrack no longer marks alternatives (explore sites: %d)" % len(ex), fn.loc(), detail="shape")
         return
     PB = body.local_name(3) or "preemption_bound"
-    at_bound = assume_all(assume_discr(PB, 1),
+
+    def pb(some):
+        """the bound parameter is Some / None, however it is tested (match / if let / is_some() / is_none())"""
+        d = assume_discr(PB, 1 if some else 0)
+
+        def a(body_, b_, t_, e):
+            r = d(body_, b_, t_, e)
+            if r is not None:
+                return r
+            pol = True
+            while e[0] == "unop" and e[1] == "Not":
+                e = e[2]
+                pol = not pol
+            if e[0] == "call" and e[2] and canon(strip(e[2][0])) == PB and e[1].split("::")[-1] in ("is_some", "is_none") and "Option" in e[1]:
+                truth = some if e[1].endswith("is_some") else (not some)
+                return switch_targets_for(t_, truth == pol)
+            return None
+        return a
+    at_bound = assume_all(pb(True),
                           assume_expr(lambda e: True if field_cmp("Eq", SCH, "preemptions")(e) else
                                       (True if field_cmp("Le", SCH, "preemptions")(e) else None)))
-    below = assume_all(assume_discr(PB, 1),
+    below = assume_all(pb(True),
                        assume_expr(lambda e: False if field_cmp("Eq", SCH, "preemptions")(e) else
                                    (True if field_cmp("Le", SCH, "preemptions")(e) else None)))
-    nobound = assume_discr(PB, 0)
+    nobound = pb(False)
     r_at, _ = PEval(body, at_bound).run()
     r_below, _ = PEval(body, below).run()
     r_none, _ = PEval(body, nobound).run()
@@ -411,7 +642,7 @@ def E1(ctx):
         ctx.bad("E1", fk, "preemption bound not enforced exactly: armed at the bound=%s, armed below=%s, armed unbounded=%s" %
                 (any(b in r_at for b in ex), all(b in r_below for b in ex), all(b in r_none for b in ex)), fn.loc(), detail="bound")
     ps = panic_sites(prog, fk, "actual = ")
-    over = assume_all(assume_discr(PB, 1), assume_expr(lambda e: False if field_cmp("Le", SCH, "preemptions")(e) else None))
+    over = assume_all(pb(True), assume_expr(lambda e: False if field_cmp("Le", SCH, "preemptions")(e) else None))
     r_over, _ = PEval(body, over).run()
     if ps and all(b in r_over for b, _ in ps) and not any(b in r_over for b in ex):
         ctx.ok("E1", fk + ":assert", "exceeding the bound is an internal error", [site_str(prog, fk, ps[0][0])])
@@ -449,6 +680,14 @@ def E1(ctx):
         return a
     g_one = one and all(unreachable_if(body, b, disabled(True)) for b in one)
     g_all = allb and all(unreachable_if(body, b, disabled(False)) for b in allb)
+    # ... in both regimes (below a bound and without one) each of the two arms is actually taken
+    for (nm, regime) in (("below the bound", below), ("without a bound", nobound)):
+        r_dis, _ = PEval(body, assume_all(regime, disabled(True))).run()
+        r_en, _ = PEval(body, assume_all(regime, disabled(False))).run()
+        if allb and not any(b in r_dis for b in allb):
+            g_all = False
+        if one and not any(b in r_en for b in one):
+            g_one = False
     if g_one and g_all:
         ctx.ok("E1", fk + ":target", "arms the racing thread if enabled there, otherwise every thread", [site_str(prog, fk, one[0])])
     else:
@@ -465,6 +704,7 @@ def E2(ctx):
     body = fn.body
     plus = []
     same = []
+    other = []
     for b, blk in enumerate(body.blocks):
         for s in blk["stmts"]:
             if s["k"] == "=" and s["lhs"]["l"] == 0 and not s["lhs"]["p"]:
@@ -474,8 +714,10 @@ def E2(ctx):
                     plus.append(b)
                 elif txt == "self.preemptions":
                     same.append(b)
+                elif e[0] != "phi" and not body.blocks[b]["cleanup"]:
+                    other.append(b)         # any third value (a constant, another field): the count is neither kept nor advanced
     pre = {"std::option::Option::<T>::is_some": True, "std::cmp::PartialEq::ne": True}
-    ok = len(plus) == 1 and len(same) == 1
+    ok = len(plus) == 1 and len(same) == 1 and not other
     if ok:
         ok = unreachable_if(body, plus[0], assume_calls({"std::option::Option::<T>::is_some": False})) and \
             unreachable_if(body, plus[0], assume_calls({"std::cmp::PartialEq::ne": False})) and \
@@ -654,15 +896,16 @@ def E4(ctx):
     body = fn.body
     inst = prog.ident(fk)
     calls = [b for (b, t, c) in prog.sites(inst) if prog.callee_key(c) == SCH + "::backtrack"]
-    if len(calls) != 3:
-        ctx.bad("E4", fk, "Path::backtrack shape changed (%d Schedule::backtrack calls, expected 3)" % len(calls), fn.loc(), detail="shape")
+    if len(calls) < 2:
+        ctx.bad("E4", fk, "Path::backtrack shape changed (%d Schedule::backtrack calls, expected the primary and the conservative ones)" % len(calls),
+                fn.loc(), detail="shape")
         return
     r_none, _ = PEval(body, assume_option_field(P, "preemption_bound", False)).run()
     r_some, _ = PEval(body, assume_option_field(P, "preemption_bound", True)).run()
     primary = [b for b in calls if b in r_none]
     extra = [b for b in calls if b not in r_none]
     bound_guard = True      # the two scenarios differ only in the tests of Path.preemption_bound itself
-    if len(primary) == 1 and len(extra) == 2 and all(b in r_some for b in extra) and bound_guard:
+    if len(primary) == 1 and len(extra) >= 1 and all(b in r_some for b in extra) and bound_guard:
         ctx.ok("E4", fk, "the conservative extra backtrack points exist only under a preemption bound", [site_str(prog, fk, b) for b in extra])
     else:
         ctx.bad("E4", fk, "the conservative extra backtrack loop must run exactly when preemption_bound.is_some() (primary=%d extra=%d)" %
@@ -683,6 +926,44 @@ def E4(ctx):
                     "conservative one: schedules a smaller bound finds are lost at a larger bound", site_str(prog, fk, bad_ret[0]), detail="skipped")
         else:
             ctx.ok("E4", fk + ":always", "the conservative point does not depend on the outcome of the primary one", [site_str(prog, fk, extra[0])])
+    # ... also when the walk reaches the very first schedule (no earlier one to compare with): with a bound set, the racing
+    # schedule having a predecessor, every *later* schedule looked at having none, and everything exploring, no return is
+    # reachable after the primary call except through a conservative backtrack call
+    if len(primary) == 1 and extra:
+        base = assume_option_field(P, "preemption_bound", True)
+        prev_some, prev_none = assume_option_field(SCH, "prev", True), assume_option_field(SCH, "prev", False)
+
+        def first_sched(body_, b, t, e):
+            r = base(body_, b, t, e)
+            if r is not None:
+                return r
+            x = e
+            pol = True
+            while x[0] == "unop" and x[1] == "Not":
+                x = x[2]
+                pol = not pol
+            if is_field(x, SCH, "exploring"):
+                return switch_targets_for(t, pol)
+            return None
+
+        def stateful(body_, b, t, e, env):
+            marker = -5001
+            r = (prev_none if marker in env else prev_some)(body_, b, t, e)
+            if r is not None:
+                env[marker] = ("int", 1)
+            return r
+        first_sched.stateful = stateful
+        bad_ret = []
+        for st in body.succs(primary[0]):
+            r_s, _ = PEval(body, first_sched).run(start=st, stop_blocks=set(extra))
+            for rb in r_s:
+                if body.term(rb)["k"] == "return" and rb not in extra:
+                    bad_ret.append(rb)
+        if bad_ret:
+            ctx.bad("E4", fk, "with a preemption bound set, Path::backtrack returns from the walk over earlier schedules at the very first "
+                    "schedule without adding the conservative backtrack point there", site_str(prog, fk, bad_ret[0]), detail="first-schedule")
+        else:
+            ctx.ok("E4", fk + ":first-schedule", "the walk ends with a conservative point at the very first schedule", [site_str(prog, fk, extra[-1])])
     # the extra point is placed where the running thread changed: active_a != active_b
     nes = [(b, t) for (b, t, c) in prog.sites(inst) if callee_path(t).endswith("PartialEq::ne")]
     if nes and all("active_thread_index" in canon(arg_expr(body, t, 0)) and "active_thread_index" in canon(arg_expr(body, t, 1)) for b, t in nes):
@@ -723,7 +1004,8 @@ def B1(ctx):
                     ctx.ok("B1", fk + ":guard", "backtrack only into exploring branches", [site_str(prog, fk, b)])
                 else:
                     ctx.bad("B1", fk, "a backtrack point is added to a branch recorded as not exploring", site_str(prog, fk, b), detail="guard")
-    ctx.floor("B1", n, 6, "3 recordings + 3 guarded backtracks (step arms are checked by X3)")
+    ctx.floor("B1", n, 5, "3 recordings + the primary and at least one conservative guarded backtrack (how many call sites the "
+              "conservative point has is E4's concern; step arms are checked by X3)")
     # the search for the branch to backtrack into skips non-exploring (and non-schedule) entries instead of giving up:
     # from the `exploring == false` edge and from the downcast-None edge no return is reachable except through `point == 0`
     if fn is not None:
@@ -889,6 +1171,66 @@ def B3(ctx):
         else:
             ctx.bad("B3", fk, "set_max_branches must install the configured limit", fn.loc())
     ctx.floor("B3", n, 4, "3 insert sites + set_max_branches")
+
+
+def B4b(ctx):
+    """Where the thread limit is the capacity of the thread table (`Set::max()` = `threads.capacity()`), that capacity is the
+    configured max_threads: the constructor sizes the table with its `max_threads` parameter, which Execution::new feeds from the
+    builder's value."""
+    prog = ctx.prog
+    fk = "rt::thread::Set::new_thread"
+    fn = need_fn(ctx, "B4b", fk)
+    if fn is None:
+        return
+    body = fn.body
+    uses_cap = False
+    for b in range(body.n):
+        t = body.term(b)
+        if t["k"] != "switch":
+            continue
+        e = body.expr_of_operand(t["op"])
+        for x in subexprs(e):
+            if x[0] == "binop" and x[1] in ("Lt", "Le", "Ge", "Gt"):
+                txt = canon(deep(prog, fk, x))
+                for y in subexprs(x):
+                    if y[0] == "call" and y[1] in prog.fns:
+                        from .common import _simple_fn
+                        cf = _simple_fn(prog, y[1])
+                        if cf is not None:
+                            txt += " " + canon(cf.body.expr_of_local(0))
+                if "capacity(" in txt:
+                    uses_cap = True
+    if not uses_cap:
+        ctx.ok("B4b", fk + ":limit-source", "the limit is not a container capacity", [fn.loc()])
+        return
+    ck = "rt::thread::Set::new"
+    cfn = need_fn(ctx, "B4b", ck)
+    if cfn is None:
+        return
+    cb = cfn.body
+    sized = []
+    for (b, t, c) in prog.sites(prog.ident(ck)):
+        if callee_path(t).endswith("::with_capacity") and t["args"]:
+            sized.append((b, strip(cb.expr_of_operand(t["args"][0]))))
+    params = {cb.local_name(i) for i in range(1, cb.j["arg_count"] + 1)}
+    ok = bool(sized) and all(e[0] == "param" for (b, e) in sized)
+    # ... and that parameter is the configured value at the construction site
+    fed = False
+    for k2 in prog.fns:
+        f2 = prog.fn(k2)
+        if f2 is None:
+            continue
+        for (b, t, c) in prog.sites(prog.ident(k2)) if prog.ident(k2) is not None else []:
+            if prog.callee_key(c) == ck:
+                for a in t["args"]:
+                    if "max_threads" in canon(f2.body.expr_of_operand(a)):
+                        fed = True
+    if ok and fed:
+        ctx.ok("B4b", ck + ":capacity", "threads = Vec::with_capacity(max_threads), max_threads from the builder", [site_str(prog, ck, sized[0][0])])
+    else:
+        ctx.bad("B4b", ck, "the thread limit is enforced as `threads.len() < threads.capacity()`, but the table is not sized with the configured "
+                "max_threads (%s): exceeding max_threads no longer produces the documented panic in Set::new_thread" %
+                ([canon(e)[:40] for (b, e) in sized] or "no with_capacity"), cfn.loc(), detail="capacity")
 
 
 def B4(ctx):
